@@ -72,10 +72,10 @@ class Foo:
     def do_stuff_no_self():
         print(3)
 
-    @classmethod
+    @staticmethod
     @functools.lru_cache(maxsize=None)
     @custom_decorator
-    def i_have_many_decorators(cls):
+    def i_have_many_decorators():
         return 10
         """,
     ),)
